@@ -211,6 +211,41 @@ pub fn run(monitor: &dyn Monitor, cfg: &RunCfg) -> i32 {
         let mut rec = Recorder::new(shift);
         rec.cur_stream = "cold-start".to_string();
         monitor.cold_start(&mut rec);
+        // one process has one cold start: repeat the probe in 24 fresh child processes (the
+        // monitor binary re-executed in `coldstart` mode), eight at a time
+        if rec.classes.keys().any(|k| k.starts_with("cold-start")) && std::env::var_os("VERIF_COLDSTART_CHILD").is_none() && (layer().starts_with("release") || layer().starts_with("checked")) {
+            if let Ok(exe) = std::env::current_exe() {
+                let mut reports: Vec<String> = Vec::new();
+                let mut ran = 0u64;
+                for _round in 0..3 {
+                    let kids: Vec<_> = (0..8)
+                        .filter_map(|_| {
+                            std::process::Command::new(&exe)
+                                .args(["coldstart", monitor.id()])
+                                .env("VERIF_COLDSTART_CHILD", "1")
+                                .stdout(std::process::Stdio::piped())
+                                .stderr(std::process::Stdio::null())
+                                .spawn()
+                                .ok()
+                        })
+                        .collect();
+                    for k in kids {
+                        if let Ok(o) = k.wait_with_output() {
+                            ran += 1;
+                            for l in String::from_utf8_lossy(&o.stdout).lines() {
+                                if let Some(d) = l.strip_prefix("COLDSTART-VIOLATION ") {
+                                    reports.push(d.to_string());
+                                }
+                            }
+                        }
+                    }
+                }
+                rec.class_n("cold-start|fresh child processes", ran, || "monitor coldstart <ID>".to_string());
+                for d in reports.into_iter().take(3) {
+                    rec.violation("cold-start-race", "coldstart:child".to_string(), "cold-start".into(), format!("in a fresh child process: {}", d));
+                }
+            }
+        }
         merged.merge(rec);
     }
     let suspect: Option<(usize, u64)> = std::thread::scope(|scope| {
